@@ -525,7 +525,10 @@ def oop_run(ctx, bins, c):
             json.dump(script, fh)
         parts = ([",".join(ctl)] + ([pl["payload"]] if pl["payload"] else [])) if pl.get("ctl_pos", "first") == "first" \
             else (([pl["payload"]] if pl["payload"] else []) + [",".join(ctl)])
-        if pl.get("byname"):
+        if pl.get("noctl"):
+            # no option text at all: this plugin's request must carry an empty PluginParameters list
+            argv += ["-p", "verifrec=%s" % getattr(bins, pl["bin"])]
+        elif pl.get("byname"):
             # `-p name`: thriftgo looks for thrift-gen-<name> on PATH
             argv += ["-p", "%s:%s" % (os.path.basename(getattr(bins, pl["bin"]))[len("thrift-gen-"):], ",".join(parts))]
         else:
@@ -598,6 +601,15 @@ def oop_run(ctx, bins, c):
             except ValueError:
                 lst.append({"err": "unreadable dump"})
         obs["dumps"].append(lst)
+    obs["noctl_dumps"] = []
+    for suffix in [""] + [".%d" % k for k in range(2, 8)]:
+        f = "%s/dump-noctl.json%s" % (d, suffix)
+        if not os.path.exists(f):
+            break
+        try:
+            obs["noctl_dumps"].append(json.load(open(f)))
+        except ValueError:
+            obs["noctl_dumps"].append({"err": "unreadable dump"})
     if os.path.exists(os.path.join(d, "decode_error.json")):
         obs["decode_error"] = open(os.path.join(d, "decode_error.json")).read()[:1000]
     # files
@@ -1250,6 +1262,53 @@ def stage_childhang(ctx, bins):
                          "the statement, recorded only" % obs["elapsed"])
 
 
+def stage_isolation(ctx, bins, only=None):
+    """Several plugins in one run, some with no option text at all: every plugin must see exactly its own options
+    (PluginParams.tla: the scalar part of the request is a function of that plugin's -p text alone), in every order."""
+    def pl(kind, k):
+        if kind == "none":
+            return {"bin": "rec0", "payload": "", "allowed": [], "noctl": True, "script": {"mode": "ok"}}
+        return {"bin": "rec0", "payload": "k%d=v%d,flag%d" % (k, k, k), "allowed": [["k%d=v%d" % (k, k)], ["flag%d" % k, "flag%d=" % k]],
+                "ctl_pos": "first", "script": {"mode": "ok"}}
+    orders = [["opt", "none"], ["none", "opt"], ["opt", "none", "opt"], ["none", "none"], ["opt", "opt", "none"], ["none"]]
+    cases = only or [{"id": "iso%d" % n, "stage": "isolation", "order": o, "prog": proto_program(), "comments": [],
+                      "targets": [{"lang": "go", "text": "no_fmt", "allowed": [["no_fmt", "no_fmt="]]}],
+                      "compress_env": None, "limit": None} for n, o in enumerate(orders)]
+    for c in cases:
+        c["plugins"] = [pl(kind, k) for k, kind in enumerate(c["order"])]
+        obs = oop_run(ctx, bins, c)
+        ctx.count(1, "isolation:" + "+".join(c["order"]))
+        probs = []
+        if obs["rc"] != 0:
+            probs.append("thriftgo exit %r: %s" % (obs["rc"], obs["stderr"][-400:]))
+        n_none = sum(1 for k in c["order"] if k == "none")
+        if len(obs["noctl_dumps"]) != n_none:
+            probs.append("%d option-less plugin(s) ran, %d saw an option-less request" % (n_none, len(obs["noctl_dumps"])))
+        for dmp in obs["noctl_dumps"]:
+            got = (dmp.get("head") or {}).get("PluginParameters")
+            if got not in ([], None):
+                probs.append("option-less plugin received PluginParameters %r" % (got,))
+        for j, kind in enumerate(c["order"]):
+            if kind != "opt":
+                continue
+            lst = obs["dumps"][j]
+            if len(lst) != 1:
+                probs.append("plugin %d: %d requests dumped under its own control options (expected 1)" % (j, len(lst)))
+                continue
+            got = (lst[0].get("head") or {}).get("PluginParameters") or []
+            ctl = obs["plug"][j]["ctl"]
+            rest = [x for x in got if x not in ctl]
+            allowed = c["plugins"][j]["allowed"]
+            if len(rest) != len(allowed) or any(r not in a for r, a in zip(rest, allowed)) or [x for x in got if x in ctl] != ctl:
+                probs.append("plugin %d received PluginParameters %r" % (j, got))
+        if probs:
+            cc = {k: v for k, v in c.items() if k != "plugins"}
+            ctx.violation({"check": "C11.params", "kind": "isolation", "order": "+".join(c["order"])}, cc,
+                          {"problems": probs, "argv": obs["argv"]},
+                          "every plugin receives exactly the options of its own -p text; none => empty list",
+                          "plugin parameters leak between plugins of one run (%s)" % "+".join(c["order"]))
+
+
 # ------------------------------------------------------------------------------------------- main
 def repo_fingerprint(ctx, repo):
     """HEAD + working-tree diff of the repository (it may be committed to while we run)"""
@@ -1310,6 +1369,8 @@ def run(ctx, args):
             stage_codec(ctx, c11req, [p])
         elif st == "argv":
             stage_argv(ctx, c11req, [c["param"]])
+        elif st == "isolation":
+            stage_isolation(ctx, bins, only=[c])
         else:
             raise vlib.MachineryError("unknown replay stage %r" % st)
         return ctx.finish("replay of one case")
@@ -1331,6 +1392,7 @@ def run(ctx, args):
     vlib.log("request stage done at %.0fs" % (time.time() - ctx.t0))
     sdk = sdk_traces(ctx, c11req, proto, t, version)
     stage_proto(ctx, bins, c11req, proto, t, version, sdk=sdk)
+    stage_isolation(ctx, bins)
     if ctx.tier == "thorough":
         stage_childhang(ctx, bins)
     ctx.exhaustive = False
